@@ -78,7 +78,7 @@ impl Config {
             arith: vec![Op::Add, Op::Sub, Op::Mul, Op::Div],
             cmp: vec![Op::Lt, Op::Eq],
             arg_types: vec![Ty::Int, Ty::Bool, Ty::fun(Ty::Int, Ty::Int), Ty::Type],
-            let_types: vec![Ty::Int, Ty::Bool, Ty::fun(Ty::Int, Ty::Int), Ty::Type],
+            let_types: vec![Ty::Int, Ty::Bool, Ty::fun(Ty::Int, Ty::Int), Ty::Type, Ty::Poly],
             groups_of_two: true,
             computed_annotations: true,
             max_ctx: 4,
@@ -221,11 +221,21 @@ impl Gen {
                 }
             }
             if *goal == Ty::Poly && n == 3 {
+                // binder names differ from those of the canonical type expression `(a : type) -> a -> a`,
+                // so that comparing the two exercises alpha-equivalence
+                // ... and the variant whose names coincide with the type expression's (so that a renaming
+                // rewrite makes them differ)
                 out.push(bx(S::Lam {
                     name: "a".to_owned(),
                     implicit: false,
                     ann: Some(bx(S::Type)),
-                    body: bx(S::Lam { name: "x".to_owned(), implicit: false, ann: Some(bx(S::Var("a".to_owned()))), body: bx(S::Var("x".to_owned())) }),
+                    body: bx(S::Lam { name: "y".to_owned(), implicit: false, ann: Some(bx(S::Var("a".to_owned()))), body: bx(S::Var("y".to_owned())) }),
+                }));
+                out.push(bx(S::Lam {
+                    name: "b".to_owned(),
+                    implicit: false,
+                    ann: Some(bx(S::Type)),
+                    body: bx(S::Lam { name: "x".to_owned(), implicit: false, ann: Some(bx(S::Var("b".to_owned()))), body: bx(S::Var("x".to_owned())) }),
                 }));
             }
             // function types (goal `type`)
@@ -357,6 +367,13 @@ impl Gen {
                         continue;
                     }
                     if (mentions(&e1, &x) || mentions(&e1, &y)) && !matches!(*e1, S::Lam { .. }) && !matches!(a_ty, Ty::Type) {
+                        continue;
+                    }
+                    // type-level definitions must not be cyclic (a definition that needs its own value)
+                    if mentions(&e1, &x) && !matches!(*e1, S::Lam { .. }) || mentions(&e2, &y) && !matches!(*e2, S::Lam { .. }) {
+                        continue;
+                    }
+                    if mentions(&e1, &y) && mentions(&e2, &x) && !(matches!(*e1, S::Lam { .. }) && matches!(*e2, S::Lam { .. })) {
                         continue;
                     }
                     if (mentions(&e2, &x) || mentions(&e2, &y)) && !matches!(*e2, S::Lam { .. }) && !matches!(b_ty, Ty::Type) {
